@@ -55,6 +55,9 @@ fn gen_history(seed: u64, quiet: bool) -> (ExecCfg, Vec<Op>, u64) {
     // later blocks of the same segment written successfully
     let mut r2 = Rng::new(seed ^ 0x5107_e5b1_0c4b);
     set_docstore_blocksize(if r2.bool() { *r2.pick(&[24usize, 64, 160, 400]) } else { 0 });
+    // a quarter of the histories compress the doc store on the indexing thread (no compressor
+    // thread): `.store` faults then hit the worker itself
+    let _ = set_docstore_variant(r2.chance(1, 4), 0);
     (cfg, ops, rng.next_u64())
 }
 
